@@ -300,7 +300,8 @@ def draw_inmem(joker, helper, samples_row, chunk, rng, n_linear):
 
 def _spy_helper(joker, data, sg):
     from thejoker.src.fast_likelihood import CJokerHelper
-    base = joker._make_joker_helper(data)
+    from . import collab
+    base = collab.make_helper(joker, data)
     cls = type(base)
 
     class SpyHelper(cls):
@@ -479,7 +480,8 @@ def realize(case):
                 got = float(row0.ln_unmarginalized_likelihood(data)[0])
                 ev["lnlikeok"] = bool(abs(got - (lnlike_phys - N * math.log(ratio))) <= 1e-7 + 1e-9 * abs(got))
                 # Bayes identity with the kernel's own state (certified by the Kernel / Draw events)
-                helper2 = joker._make_joker_helper(data)
+                from . import collab as _collab
+                helper2 = _collab.make_helper(joker, data)
                 llm = float(np.array(helper2.batch_marginal_ln_likelihood(np.ascontiguousarray(tchunk, dtype=float)))[0]) + N * math.log(ratio)
                 helper2.batch_get_posterior_samples(np.ascontiguousarray(tchunk, dtype=float), 1, ScriptedGen(ratio))
                 Ai = np.array(helper2.Ainv) * ratio**2
